@@ -772,7 +772,8 @@ def main(outdir, status_path=None):
         with open(status_path, "w") as f:
             json.dump(STATUS, f, indent=1, sort_keys=True)
     bad = [k for k, v in STATUS["functions"].items() if not v["ok"]]
-    print(f"tracer: {len(STATUS['functions'])} functions traced, {len(bad)} failed, changed={[k for k, v in changed.items() if v]}")
+    print(f"tracer: {len(STATUS['functions'])} functions traced, {len(bad)} failed, changed={[k for k, v in changed.items() if v]}"
+          + (f", GENERATOR ERRORS: {STATUS['generator_errors']}" if STATUS.get("generator_errors") else ""))
     for k in bad:
         print("  untraceable:", k, STATUS["functions"][k]["error"])
     return 0
